@@ -153,6 +153,18 @@ class _InlineMixin:
                     return self.inline(c[0], args, recv)
                 finally:
                     self.self_ty = saved
+        if isinstance(recv, tuple) and recv and recv[0] not in ("struct", "enum", "list", "some", "none", "ok", "err", "fmt", "str", "map", "tuple", "lazy", "chunks") \
+                and m not in self.NO_INLINE:
+            # an abstract value of a rule (a block, an instruction ..): a method that exists exactly once in the crate is evaluated on it
+            meth, free, consts = _index(self.ctx)
+            c = [x for (st_, nm_), fs_ in meth.items() if nm_ == m for x in fs_]
+            if len(c) == 1 and any(q[0] == "self" for q in c[0]["sig"]["params"]):
+                saved = getattr(self, "self_ty", None)
+                self.self_ty = c[0].get("self_ty")
+                try:
+                    return self.inline(c[0], args, recv)
+                finally:
+                    self.self_ty = saved
         if isinstance(recv, tuple) and recv and recv[0] == "struct" and m not in self.NO_INLINE:
             meth, free, consts = _index(self.ctx)
             c = meth.get((recv[1], m), [])
